@@ -183,3 +183,536 @@ Proof.
   cbn [firstn skipn app]. rewrite app_nil_r. rewrite Hlen in *.
   repeat split; auto; try lia; try congruence.
 Qed.
+
+(* ---------------------------------------------------------------- the strike loop *)
+Lemma set_flags_book c a b r m n : c_book (set_flags c a b r m n) = c_book c. Proof. reflexivity. Qed.
+
+Lemma w_same_flags c m n : w (set_flags c (c_acked c) (c_abandoned c) (c_retx c) m n) = w c.
+Proof. reflexivity. Qed.
+
+Lemma strike_ok : forall n pre post oq cum last_pos htna gaps fl loss now,
+  Forall bok pre -> Forall rxok pre -> Forall bok post -> Forall rxok post -> Forall bok oq -> Forall fresh oq ->
+  0 <= fl <= fsum pre + fsum post ->
+  let '(sq, oq', fl', loss') := strike n pre post oq cum last_pos htna gaps fl loss now in
+  0 <= fl' <= fsum sq /\ Forall bok sq /\ Forall rxok sq /\ Forall bok oq' /\ Forall fresh oq' /\
+  (Forall abrx pre -> Forall abrx post -> Forall abrx sq) /\ fl' <= fl.
+Proof.
+  induction n as [|n IH]; intros pre post oq cum last_pos htna gaps fl loss now Hbp Hrp Hbq Hrq Hbo Hfo Hfl.
+  - cbn [strike]. rewrite fsum_app, fsum_rev.
+    repeat split; try lia; auto; try (apply Forall_app; split; [apply Forall_rev|]; assumption).
+    intros A B. apply Forall_app. split; [now apply Forall_rev|exact B].
+  - cbn [strike]. destruct post as [|c post'].
+    { rewrite app_nil_r, fsum_rev. cbn [fsum fold_right] in *.
+      repeat split; try lia; auto; try (apply Forall_rev; assumption). intros A _. now apply Forall_rev. }
+    assert (Hstop : 0 <= fl <= fsum (rev pre ++ c :: post') /\ Forall bok (rev pre ++ c :: post') /\
+                    Forall rxok (rev pre ++ c :: post') /\
+                    (Forall abrx pre -> Forall abrx (c :: post') -> Forall abrx (rev pre ++ c :: post'))).
+    { rewrite fsum_app, fsum_rev. repeat split; try lia;
+        try (apply Forall_app; split; [apply Forall_rev|]; assumption).
+      intros A B. apply Forall_app. split; [now apply Forall_rev|exact B]. }
+    inversion Hbq as [|? ? Hbc Hbq']; subst. inversion Hrq as [|? ? Hrc Hrq']; subst.
+    rewrite fsum_cons in Hfl.
+    destruct (uint32_gt (c_tsn c) htna).
+    { destruct Hstop as (S1 & S2 & S3 & S4). repeat split; auto; lia. }
+    destruct (negb (in_gaps gaps last_pos (tsn_off cum (c_tsn c)))).
+    + destruct (c_misses c + 1 =? 3).
+      * set (c0 := set_flags c (c_acked c) (c_abandoned c) (c_retx c) 0 (c_sent_count c)).
+        assert (Hb0 : bok c0) by exact Hbc. assert (Hr0 : rxok c0) by exact Hrc.
+        assert (Hfl0 : 0 <= fl) by lia.
+        pose proof (maybe_abandon_ok fl pre c0 post' oq now Hbp Hrp Hb0 Hr0 Hbq' Hrq' Hbo Hfo Hfl0) as Hm.
+        destruct (maybe_abandon fl pre c0 post' oq now) as [[[[[ab fl1] pre1] c1] post1] oq1].
+        destruct Hm as (M1 & M2 & M3 & M4 & M5 & M6 & M7 & M8 & M9 & M10 & M11 & M12 & M13 & M14 & M15 & M16 & M17 & M18).
+        set (c2 := set_flags c1 false (c_abandoned c1) (if ab then c_retx c1 else true) (c_misses c1) (c_sent_count c1)).
+        assert (Hw2 : w c2 = 0).
+        { unfold w, infl, c2, set_flags. cbn. destruct ab.
+          - destruct (M13 eq_refl) as [A _]. rewrite A. reflexivity.
+          - now rewrite andb_false_r. }
+        assert (Hb2 : bok c2) by (unfold bok, c2; rewrite set_flags_book, M12; exact Hbc).
+        assert (Hr2 : rxok c2).
+        { unfold rxok, c2, set_flags. cbn. destruct ab.
+          - destruct (M13 eq_refl) as [_ B]. rewrite B. discriminate.
+          - intros _. destruct (M14 eq_refl) as [E1 E2]. rewrite E1. exact E2. }
+        assert (Ha2 : abrx c2).
+        { unfold abrx, c2, set_flags. cbn. destruct ab; [left; exact (proj1 (M13 eq_refl))|right; reflexivity]. }
+        pose proof (w_range c Hbc) as Hwc. change (w c0) with (w c) in *.
+        assert (Hd : 0 <= dec fl1 c2 <= fsum (c2 :: pre1) + fsum post1).
+        { pose proof (fsum_nonneg _ M4). pose proof (fsum_nonneg _ M8).
+          unfold dec. rewrite fsum_cons, Hw2. unfold c2. rewrite set_flags_book, M12. change (c_book c0) with (c_book c). lia. }
+        specialize (IH (c2 :: pre1) post1 oq1 cum last_pos htna gaps (dec fl1 c2) true now
+                       (Forall_cons _ Hb2 M4) (Forall_cons _ Hr2 M5) M8 M9 M10 M11 Hd).
+        destruct (strike n (c2 :: pre1) post1 oq1 cum last_pos htna gaps (dec fl1 c2) true now) as [[[sq oq'] fl'] loss'].
+        destruct IH as (I1 & I2 & I3 & I4 & I5 & I6 & I7).
+        assert (Hdec : dec fl1 c2 <= fl) by (unfold dec; unfold c2; rewrite set_flags_book, M12; change (c_book c0) with (c_book c); unfold bok in Hbc; lia).
+        repeat split; auto; try lia.
+        intros A B. inversion B as [|? ? Bc Bp]; subst. apply I6.
+        -- constructor; [exact Ha2|now apply M15].
+        -- rewrite <- (firstn_skipn (length post') post1). apply Forall_app. split; [|exact M17].
+           eapply abrx_keep; eauto.
+      * set (c1 := set_flags c (c_acked c) (c_abandoned c) (c_retx c) (c_misses c + 1) (c_sent_count c)).
+        assert (Hd : 0 <= fl <= fsum (c1 :: pre) + fsum post') by (rewrite fsum_cons; change (w c1) with (w c); lia).
+        assert (Hb1 : bok c1) by exact Hbc. assert (Hr1 : rxok c1) by exact Hrc.
+        specialize (IH (c1 :: pre) post' oq cum last_pos htna gaps fl loss now
+                       (Forall_cons _ Hb1 Hbp) (Forall_cons _ Hr1 Hrp) Hbq' Hrq' Hbo Hfo Hd).
+        destruct (strike n (c1 :: pre) post' oq cum last_pos htna gaps fl loss now) as [[[sq oq'] fl'] loss'].
+        destruct IH as (I1 & I2 & I3 & I4 & I5 & I6 & I7).
+        repeat split; auto; try lia.
+        intros A B. inversion B as [|? ? Bc Bp]; subst. apply I6; [constructor; [exact Bc|exact A]|exact Bp].
+    + assert (Hd : 0 <= fl <= fsum (c :: pre) + fsum post') by (rewrite fsum_cons; lia).
+      specialize (IH (c :: pre) post' oq cum last_pos htna gaps fl loss now
+                     (Forall_cons _ Hbc Hbp) (Forall_cons _ Hrc Hrp) Hbq' Hrq' Hbo Hfo Hd).
+      destruct (strike n (c :: pre) post' oq cum last_pos htna gaps fl loss now) as [[[sq oq'] fl'] loss'].
+      destruct IH as (I1 & I2 & I3 & I4 & I5 & I6 & I7).
+      repeat split; auto; try lia.
+      intros A B. inversion B as [|? ? Bc Bp]; subst. apply I6; [constructor; [exact Bc|exact A]|exact Bp].
+Qed.
+
+(* ---------------------------------------------------------------- T3 marking *)
+Lemma Forall2_skipn {A B} (R : A -> B -> Prop) : forall k l l', Forall2 R l l' -> Forall2 R (skipn k l) (skipn k l').
+Proof.
+  induction k as [|k IH]; intros l l' H; [exact H|]. destruct H; cbn [skipn]; [constructor|now apply IH].
+Qed.
+
+Lemma skipn_firstn_app {A} (k m : nat) (l : list A) : (k <= m)%nat ->
+  skipn k l = skipn k (firstn m l) ++ skipn m l.
+Proof.
+  intros H. destruct (Nat.le_gt_cases m (length l)) as [L|L].
+  - rewrite <- (firstn_skipn m l) at 1. rewrite skipn_app, firstn_length, Nat.min_l by lia.
+    replace (k - m)%nat with 0%nat by lia. reflexivity.
+  - rewrite (firstn_all2 l) by lia. rewrite (skipn_all2 (n := m) l) by lia. now rewrite app_nil_r.
+Qed.
+
+(* n = chunks of the snapshot still to visit; everything behind them was appended by
+   _maybe_abandon (abandoned unsent fragments) *)
+Lemma t3_mark_ok : forall n pre post oq fl now,
+  Forall bok pre -> Forall rxok pre -> Forall bok post -> Forall rxok post -> Forall bok oq -> Forall fresh oq ->
+  0 <= fl -> Forall abrx pre -> (n <= length post)%nat -> Forall abrx (skipn n post) ->
+  let '(sq, oq', fl') := t3_mark n pre post oq fl now in
+  Forall bok sq /\ Forall rxok sq /\ Forall bok oq' /\ Forall fresh oq' /\ Forall abrx sq.
+Proof.
+  induction n as [|n IH]; intros pre post oq fl now Hbp Hrp Hbq Hrq Hbo Hfo Hfl Ha Hn He.
+  - cbn [t3_mark]. cbn [skipn] in He.
+    repeat split; auto; apply Forall_app; split; try (apply Forall_rev); assumption.
+  - cbn [t3_mark]. destruct post as [|c post']; [cbn in Hn; lia|].
+    inversion Hbq as [|? ? Hbc Hbq']; subst. inversion Hrq as [|? ? Hrc Hrq']; subst.
+    cbn [skipn length] in He, Hn.
+    pose proof (maybe_abandon_ok fl pre c post' oq now Hbp Hrp Hbc Hrc Hbq' Hrq' Hbo Hfo Hfl) as Hm.
+    destruct (maybe_abandon fl pre c post' oq now) as [[[[[ab fl1] pre1] c1] post1] oq1].
+    destruct Hm as (M1 & M2 & M3 & M4 & M5 & M6 & M7 & M8 & M9 & M10 & M11 & M12 & M13 & M14 & M15 & M16 & M17 & M18).
+    set (c2 := if ab then c1 else set_flags c1 (c_acked c1) (c_abandoned c1) true (c_misses c1) (c_sent_count c1)).
+    assert (Hb2 : bok c2) by (unfold c2; destruct ab; exact M6).
+    assert (Hr2 : rxok c2).
+    { unfold c2. destruct ab; [exact M7|]. intros _. cbn. destruct (M14 eq_refl) as [E1 E2]. rewrite E1. exact E2. }
+    assert (Ha2 : abrx c2).
+    { unfold c2. destruct ab; [left; exact (proj1 (M13 eq_refl))|right; reflexivity]. }
+    apply IH; auto; try lia.
+    rewrite (skipn_firstn_app n (length post') post1) by lia.
+    apply Forall_app. split; [|exact M17].
+    eapply abrx_keep; [apply Forall2_skipn; exact M16|exact He].
+Qed.
+
+(* ---------------------------------------------------------------- SACK: cumulative and gap acks *)
+Lemma pop_acked_ok : forall sq cum fl d db, Forall bok sq -> Forall rxok sq -> 0 <= fl <= fsum sq ->
+  let '(sq', fl', d', db') := pop_acked sq cum fl d db in
+  0 <= fl' <= fsum sq' /\ fl' <= fl /\ Forall bok sq' /\ Forall rxok sq' /\ (Forall abrx sq -> Forall abrx sq') /\ db <= db' /\
+  (length sq' <= length sq)%nat.
+Proof.
+  induction sq as [|c sq IH]; intros cum fl d db Hb Hr Hfl; cbn [pop_acked].
+  - repeat split; auto; lia.
+  - inversion Hb as [|? ? Hc Hb']; subst. inversion Hr as [|? ? Hrc Hr']; subst.
+    rewrite fsum_cons in Hfl. pose proof (w_range c Hc) as Hw. pose proof (fsum_nonneg _ Hb') as Hn.
+    destruct (uint32_gte cum (c_tsn c)).
+    + destruct (c_acked c) eqn:Ea.
+      * assert (w c = 0) by (unfold w, infl; now rewrite Ea).
+        assert (Hfl' : 0 <= fl <= fsum sq) by lia.
+        specialize (IH cum fl (d + 1) db Hb' Hr' Hfl'). destruct (pop_acked sq cum fl (d + 1) db) as [[[sq' fl'] d'] db'].
+        destruct IH as (I1 & I2 & I3 & I4 & I5 & I6 & I7). repeat split; auto; try lia; try (cbn [length]; lia).
+        intros A. inversion A; subst. now apply I5.
+      * assert (Hfl' : 0 <= dec fl c <= fsum sq) by (unfold dec; lia).
+        specialize (IH cum (dec fl c) (d + 1) (db + c_book c) Hb' Hr' Hfl').
+        destruct (pop_acked sq cum (dec fl c) (d + 1) (db + c_book c)) as [[[sq' fl'] d'] db'].
+        destruct IH as (I1 & I2 & I3 & I4 & I5 & I6 & I7). unfold bok in Hc. repeat split; auto; try lia; try (cbn [length]; lia).
+        -- unfold dec in I2. lia.
+        -- intros A. inversion A; subst. now apply I5.
+    + rewrite fsum_cons. repeat split; auto; lia.
+Qed.
+
+Lemma gap_ack_ok : forall sq cum last_pos hs gaps fl db h K, Forall bok sq -> Forall rxok sq ->
+  0 <= K -> 0 <= fl <= K + fsum sq ->
+  let '(sq', fl', db', h') := gap_ack sq cum last_pos hs gaps fl db h in
+  0 <= fl' <= K + fsum sq' /\ fl' <= fl /\ Forall bok sq' /\ Forall rxok sq' /\ (Forall abrx sq -> Forall abrx sq') /\
+  length sq' = length sq /\ db <= db'.
+Proof.
+  induction sq as [|c sq IH]; intros cum last_pos hs gaps fl db h K Hb Hr HK Hfl; cbn [gap_ack].
+  - repeat split; auto; lia.
+  - inversion Hb as [|? ? Hc Hb']; subst. inversion Hr as [|? ? Hrc Hr']; subst.
+    rewrite fsum_cons in Hfl. pose proof (w_range c Hc) as Hw. pose proof (fsum_nonneg _ Hb') as Hn.
+    destruct (uint32_gt (c_tsn c) hs).
+    { rewrite fsum_cons. repeat split; auto; lia. }
+    destruct (in_gaps gaps last_pos (tsn_off cum (c_tsn c)) && negb (c_acked c)).
+    + set (c1 := set_flags c true (c_abandoned c) (c_retx c) (c_misses c) (c_sent_count c)).
+      assert (Hw1 : w c1 = 0) by reflexivity.
+      assert (Hfl' : 0 <= dec fl c <= K + fsum sq) by (unfold dec; lia).
+      specialize (IH cum last_pos hs gaps (dec fl c) (db + c_book c) (c_tsn c) K Hb' Hr' HK Hfl').
+      destruct (gap_ack sq cum last_pos hs gaps (dec fl c) (db + c_book c) (c_tsn c)) as [[[sq' fl'] db'] h'].
+      destruct IH as (I1 & I2 & I3 & I4 & I5 & I6 & I7). rewrite fsum_cons, Hw1.
+      assert (Hb1 : bok c1) by exact Hc. assert (Hr1 : rxok c1) by exact Hrc. unfold bok in Hc.
+      repeat split; auto; try lia.
+      * unfold dec in I2. lia.
+      * intros A. inversion A as [|? ? Ac As]; subst. constructor; [exact Ac|now apply I5].
+      * cbn [length]. lia.
+    + assert (HK' : 0 <= K + w c) by lia.
+      assert (Hfl' : 0 <= fl <= (K + w c) + fsum sq) by lia.
+      specialize (IH cum last_pos hs gaps fl db h (K + w c) Hb' Hr' HK' Hfl').
+      destruct (gap_ack sq cum last_pos hs gaps fl db h) as [[[sq' fl'] db'] h'].
+      destruct IH as (I1 & I2 & I3 & I4 & I5 & I6 & I7). rewrite fsum_cons.
+      repeat split; auto; try lia.
+      * intros A. inversion A as [|? ? Ac As]; subst. constructor; [exact Ac|now apply I5].
+      * cbn [length]. lia.
+Qed.
+
+(* ---------------------------------------------------------------- _transmit *)
+Lemma retx_loop_ok : forall sq fl cw frt earliest t3r, Forall bok sq -> Forall rxok sq ->
+  let '(sq', fl', frt', t3r', stop, outs) := retx_loop sq fl cw frt earliest t3r in
+  fl' - fl = fsum sq' - fsum sq /\ fl <= fl' /\ Forall bok sq' /\ Forall rxok sq' /\ length sq' = length sq /\
+  (t3r = true -> t3r' = true) /\
+  (stop = true -> sq' <> []) /\
+  (earliest = true -> match sq with c :: _ => c_retx c = true -> (frt = true \/ fl < cw) -> t3r' = true | [] => True end).
+Proof.
+  induction sq as [|c sq IH]; intros fl cw frt earliest t3r Hb Hr; cbn [retx_loop].
+  - repeat split; auto; try lia; discriminate.
+  - inversion Hb as [|? ? Hc Hb']; subst. inversion Hr as [|? ? Hrc Hr']; subst.
+    destruct (c_retx c) eqn:Er.
+    + destruct (negb frt && (cw <=? fl)) eqn:Estop.
+      * repeat split; auto; try lia; try discriminate.
+        intros _ _ [F|F]; [subst; discriminate|]. apply andb_true_iff in Estop as [_ E]. apply Z.leb_le in E. lia.
+      * set (c1 := set_flags c false (c_abandoned c) false 0 (c_sent_count c + 1)).
+        assert (Hw : w c = 0) by (unfold w, infl; rewrite Er; now rewrite andb_false_r).
+        assert (Hw1 : w c1 = c_book c).
+        { unfold w, infl, c1, set_flags. cbn. rewrite (Hrc Er). reflexivity. }
+        specialize (IH (fl + c_book c) cw false false (t3r || earliest) Hb' Hr').
+        destruct (retx_loop sq (fl + c_book c) cw false false (t3r || earliest)) as [[[[[sq' fl'] frt'] t3r'] stop] outs].
+        destruct IH as (I1 & I2 & I3 & I4 & I5 & I6 & I7 & _).
+        assert (Hb1 : bok c1) by exact Hc. assert (Hr1 : rxok c1) by (intros X; discriminate X).
+        unfold bok in Hc. rewrite !fsum_cons, Hw, Hw1.
+        repeat split; auto; try lia; try discriminate.
+        -- cbn [length]. lia.
+        -- intros ->. apply I6. reflexivity.
+        -- intros -> _ _. apply I6. apply orb_true_r.
+    + specialize (IH fl cw frt false t3r Hb' Hr').
+      destruct (retx_loop sq fl cw frt false t3r) as [[[[[sq' fl'] frt'] t3r'] stop] outs].
+      destruct IH as (I1 & I2 & I3 & I4 & I5 & I6 & I7 & _).
+      rewrite !fsum_cons. repeat split; auto; try lia; try discriminate; try (cbn [length]; lia); try (intros; congruence).
+Qed.
+
+Lemma new_loop_ok : forall oq fl cw, Forall bok oq -> Forall fresh oq ->
+  let '(mv, rest, fl', outs) := new_loop oq fl cw in
+  fl' = fl + fsum mv /\ Forall bok mv /\ Forall rxok mv /\ Forall bok rest /\ Forall fresh rest /\
+  (rest <> [] -> cw <= fl') /\ (oq <> [] -> fl < cw -> mv <> []) /\
+  (Forall abrx [] -> True).
+Proof.
+  induction oq as [|c oq IH]; intros fl cw Hb Hf; cbn [new_loop].
+  - rewrite fsum_nil. repeat split; auto; try lia; try constructor; try congruence.
+  - inversion Hb as [|? ? Hc Hb']; subst. inversion Hf as [|? ? Hfc Hf']; subst.
+    destruct (Z.ltb_spec fl cw) as [Hlt|Hge].
+    + set (c1 := set_flags c (c_acked c) (c_abandoned c) (c_retx c) (c_misses c) (c_sent_count c + 1)).
+      destruct Hfc as (F1 & F2 & F3).
+      assert (Hw1 : w c1 = c_book c) by (unfold w, infl, c1, set_flags; cbn; now rewrite F1, F2, F3).
+      specialize (IH (fl + c_book c) cw Hb' Hf').
+      destruct (new_loop oq (fl + c_book c) cw) as [[[mv rest] fl'] outs].
+      destruct IH as (I1 & I2 & I3 & I4 & I5 & I6 & I7 & _).
+      assert (Hb1 : bok c1) by exact Hc. assert (Hr1 : rxok c1) by (intros X; cbn in X; congruence).
+      rewrite fsum_cons, Hw1. repeat split; auto; try lia; try discriminate.
+    + rewrite fsum_nil. repeat split; auto; try lia; try constructor; try congruence.
+Qed.
+
+(* ---------------------------------------------------------------- _update_advanced_peer_ack_point *)
+Definition head_live (l : list sc) : Prop := match l with c :: _ => c_abandoned c = false | [] => True end.
+
+Lemma pop_abandoned_ok : forall sq adv strs, Forall bok sq -> Forall rxok sq ->
+  let '(sq', adv', strs') := pop_abandoned sq adv strs in
+  fsum sq' = fsum sq /\ Forall bok sq' /\ Forall rxok sq' /\ head_live sq' /\ (Forall abrx sq -> Forall abrx sq') /\
+  (length sq' <= length sq)%nat.
+Proof.
+  induction sq as [|c sq IH]; intros adv strs Hb Hr; cbn [pop_abandoned].
+  - repeat split; auto.
+  - inversion Hb as [|? ? Hc Hb']; subst. inversion Hr as [|? ? Hrc Hr']; subst.
+    destruct (c_abandoned c) eqn:Ea.
+    + specialize (IH (c_tsn c) (Some (if c_unord c then match strs with Some l => l | None => [] end
+                                       else sset match strs with Some l => l | None => [] end (c_sid c) (c_sseq c))) Hb' Hr').
+      destruct (pop_abandoned sq _ _) as [[sq' adv'] strs'].
+      destruct IH as (I1 & I2 & I3 & I4 & I5 & I6).
+      assert (w c = 0) by (unfold w, infl; rewrite Ea; now rewrite andb_false_r).
+      rewrite fsum_cons. repeat split; auto; try lia; try (cbn [length]; lia).
+      intros A. inversion A; subst. now apply I5.
+    + repeat split; auto.
+Qed.
+
+Record inv (s : tx) : Prop := mkInv {
+  i_bo : Forall bok (outq s);
+  i_fo : Forall fresh (outq s);
+  i_bs : Forall bok (sentq s);
+  i_rs : Forall rxok (sentq s);
+  i_cw : MTU <= cwnd s;
+  i_fl : 0 <= flight s <= fsum (sentq s);
+  i_t3 : sentq s <> [] -> t3 s = true \/
+         (pending_tx s = true /\ flight s = 0 /\ Forall abrx (sentq s) /\ head_live (sentq s));
+  i_oq : outq s <> [] -> sentq s <> [] \/ pending_tx s = true
+}.
+
+(* what _transmit needs and gives *)
+Record tpre (s : tx) : Prop := mkTpre {
+  p_bo : Forall bok (outq s); p_fo : Forall fresh (outq s);
+  p_bs : Forall bok (sentq s); p_rs : Forall rxok (sentq s);
+  p_cw : MTU <= cwnd s; p_fl : 0 <= flight s <= fsum (sentq s)
+}.
+
+Lemma transmit_ok s : tpre s ->
+  let s' := fst (transmit s) in
+  tpre s' /\ cwnd s' = cwnd s /\ pending_tx s' = pending_tx s /\
+  (t3 s = true -> t3 s' = true) /\
+  (fwd_chunk s <> None -> t3 s' = true) /\
+  (match sentq s with c :: _ => c_retx c = true /\ flight s = 0 | [] => False end -> t3 s' = true) /\
+  (sentq s = [] -> sentq s' <> [] -> t3 s' = true) /\
+  (sentq s <> [] -> sentq s' <> []) /\
+  (outq s' <> [] -> sentq s' <> []).
+Proof.
+  intros [Hbo Hfo Hbs Hrs Hcw Hfl]. unfold transmit.
+  set (fw := match fwd_chunk s with Some (cum, strs) => ([OFwd cum strs], true) | None => ([], t3 s) end).
+  assert (Hfw : (t3 s = true -> snd fw = true) /\ (fwd_chunk s <> None -> snd fw = true)).
+  { unfold fw. destruct (fwd_chunk s) as [[cum strs]|]; cbn [snd]; split; auto; congruence. }
+  destruct fw as [fwd_out t3a]. cbn [snd] in Hfw. destruct Hfw as [Hfw1 Hfw2].
+  set (burst := if match fr_exit s with Some _ => true | None => false end then 2 * MTU else 4 * MTU).
+  set (cw := Z.min (flight s + burst) (cwnd s)).
+  assert (Hcwpos : MTU <= cw).
+  { unfold cw, burst. rewrite MTU_val in *. destruct (match fr_exit s with Some _ => true | None => false end); lia. }
+  pose proof (retx_loop_ok (sentq s) (flight s) cw (fr_transmit s) true false Hbs Hrs) as Hr.
+  destruct (retx_loop (sentq s) (flight s) cw (fr_transmit s) true false) as [[[[[sq fl] frt] t3r] stop] outs1].
+  destruct Hr as (R1 & R2 & R3 & R4 & R5 & R6 & R7 & R8).
+  assert (Hhead : match sentq s with c :: _ => c_retx c = true /\ flight s = 0 | [] => False end -> t3r = true).
+  { specialize (R8 eq_refl). destruct (sentq s) as [|c rest]; [intros []|]. intros [Hc H0]. apply R8; [exact Hc|].
+    right. rewrite H0. rewrite MTU_val in *. lia. }
+  assert (Hsq : sentq s <> [] -> sq <> []).
+  { intros Hne E. subst sq. cbn [length] in R5. destruct (sentq s); [congruence|cbn in R5; lia]. }
+  destruct stop.
+  - cbn [fst]. split; [constructor; cbn [outq sentq cwnd flight]; auto; lia|]. cbn [cwnd pending_tx t3 fwd_chunk sentq outq flight].
+    repeat split; auto.
+    + intros H. rewrite (Hfw1 H). reflexivity.
+    + intros H. rewrite (Hfw2 H). reflexivity.
+    + intros H. rewrite (Hhead H). apply orb_true_r.
+    + intros E Hne. exfalso. rewrite E in R5. destruct sq; [congruence|cbn in R5; lia].
+  - pose proof (new_loop_ok (outq s) fl cw Hbo Hfo) as Hn.
+    destruct (new_loop (outq s) fl cw) as [[[mv rest] fl2] outs2].
+    destruct Hn as (N1 & N2 & N3 & N4 & N5 & N6 & N7 & _).
+    cbn [fst].
+    assert (Hfs : fsum (sq ++ mv) = fsum sq + fsum mv) by apply fsum_app.
+    pose proof (fsum_nonneg _ N2) as Hmv.
+    split; [constructor; cbn [outq sentq cwnd flight]; auto; try (apply Forall_app; split; assumption); lia|]. cbn [cwnd pending_tx t3 fwd_chunk sentq outq flight].
+    repeat split; auto.
+    + intros H. rewrite (Hfw1 H). reflexivity.
+    + intros H. rewrite (Hfw2 H). reflexivity.
+    + intros H. rewrite (Hhead H). rewrite orb_true_r. reflexivity.
+    + intros E Hne. rewrite E in R5. destruct sq; [|cbn in R5; lia]. cbn [app] in Hne.
+      destruct mv; [congruence|]. cbn. apply orb_true_r.
+    + intros Hne E. apply app_eq_nil in E as [E _]. now apply Hsq.
+    + intros Hrest E. apply app_eq_nil in E as [E1 E2]. subst sq mv.
+      specialize (N6 Hrest). rewrite fsum_nil in *. cbn [length] in R5.
+      rewrite MTU_val in *. lia.
+Qed.
+
+Lemma inv_tpre s : inv s -> tpre s.
+Proof. intros [A B C D E F _ _]. constructor; assumption. Qed.
+
+Lemma update_adv_ok s : tpre s ->
+  let s' := update_adv s in
+  tpre s' /\ cwnd s' = cwnd s /\ flight s' = flight s /\ outq s' = outq s /\ t3 s' = t3 s /\
+  pending_tx s' = pending_tx s /\ head_live (sentq s') /\ (Forall abrx (sentq s) -> Forall abrx (sentq s')) /\
+  (sentq s = [] -> sentq s' = []).
+Proof.
+  intros [Hbo Hfo Hbs Hrs Hcw Hfl]. unfold update_adv.
+  destruct (if uint32_gte (last_sacked s) (adv_ack s) then (last_sacked s, None) else (adv_ack s, fwd_streams s)) as [adv0 strs0].
+  pose proof (pop_abandoned_ok (sentq s) adv0 strs0 Hbs Hrs) as Hp.
+  destruct (pop_abandoned (sentq s) adv0 strs0) as [[sq adv] strs].
+  destruct Hp as (P1 & P2 & P3 & P4 & P5 & P6). cbn [cwnd flight outq t3 pending_tx sentq].
+  split; [constructor; cbn [outq sentq cwnd flight]; auto; lia|].
+  repeat split; auto. intros E. rewrite E in P6. destruct sq; [reflexivity|cbn in P6; lia].
+Qed.
+
+Lemma abrx_head_retx l : Forall abrx l -> head_live l -> match l with c :: _ => c_retx c = true | [] => True end.
+Proof.
+  destruct l as [|c l]; [auto|]. intros A H. inversion A as [|? ? Ac _]; subst. cbn in H.
+  destruct Ac as [X|X]; [congruence|exact X].
+Qed.
+
+Lemma inv_of_transmit s (pend : bool) :
+  tpre s ->
+  (sentq s <> [] -> t3 s = true \/ (flight s = 0 /\ Forall abrx (sentq s) /\ head_live (sentq s))) ->
+  let s1 := fst (transmit s) in
+  inv (mkTx (cwnd s1) (ssthresh s1) (flight s1) (fr_exit s1) (fr_transmit s1) (fwd_chunk s1) (fwd_streams s1)
+            (last_sacked s1) (adv_ack s1) (outq s1) (sentq s1) (pba s1) (t3 s1) pend).
+Proof.
+  intros Hp Ht. pose proof (transmit_ok s Hp) as H. cbn zeta in H.
+  destruct H as ([Hbo Hfo Hbs Hrs Hcw Hfl] & T1 & T2 & T3 & T4 & T5 & T6 & T7 & T8).
+  constructor; cbn [outq sentq cwnd flight t3 pending_tx]; auto.
+  intros Hne. left.
+  destruct (sentq s) as [|c rest] eqn:Es.
+  - now apply T6.
+  - destruct (Ht ltac:(discriminate)) as [X|(F0 & A & L)]; [now apply T3|].
+    apply T5. pose proof (abrx_head_retx _ A L) as R. cbn in R. auto.
+Qed.
+
+Lemma inv_pending s p : inv s ->
+  (p = false -> (sentq s <> [] -> t3 s = true) /\ (outq s <> [] -> sentq s <> [])) ->
+  inv (mkTx (cwnd s) (ssthresh s) (flight s) (fr_exit s) (fr_transmit s) (fwd_chunk s) (fwd_streams s)
+            (last_sacked s) (adv_ack s) (outq s) (sentq s) (pba s) (t3 s) p).
+Proof.
+  intros [A B C D E F G H] Hp. constructor; cbn [outq sentq cwnd flight t3 pending_tx]; auto.
+  - intros Hne. destruct p; [|left; now apply (proj1 (Hp eq_refl))].
+    destruct (G Hne) as [X|(_ & X2 & X3 & X4)]; [now left|right; auto].
+  - intros Hne. destruct p; [now right|left; now apply (proj2 (Hp eq_refl))].
+Qed.
+
+Lemma sack_state s cum gaps now :
+  inv s -> uint32_gt (last_sacked s) cum = false ->
+  exists s1, fst (receive_sack s cum gaps now) = fst (transmit s1) /\ tpre s1 /\ pending_tx s1 = pending_tx s /\
+    (sentq s1 <> [] -> t3 s1 = true \/ (flight s1 = 0 /\ Forall abrx (sentq s1) /\ head_live (sentq s1))).
+Proof.
+  intros [Hbo Hfo Hbs Hrs Hcw Hfl Ht3 Hoq] Hgt. unfold receive_sack. rewrite Hgt.
+  pose proof (pop_acked_ok (sentq s) cum (flight s) 0 0 Hbs Hrs Hfl) as H1.
+  destruct (pop_acked (sentq s) cum (flight s) 0 0) as [[[sq1 fl1] done] db1].
+  destruct H1 as (A1 & A2 & A3 & A4 & A5 & A6 & A7).
+  set (g := match gaps with
+            | [] => (sq1, outq s, fl1, db1, false)
+            | _ => let last_pos := match sq1 with [] => 0 | _ => tsn_off cum (last_tsn sq1 0) end in
+                   let hs := highest_seen cum last_pos gaps cum in
+                   let '(sq2, fl2, db2, htna) := gap_ack sq1 cum last_pos hs gaps fl1 db1 cum in
+                   let '(sq3, oq3, fl3, loss) := strike (length sq2) [] sq2 (outq s) cum last_pos htna gaps fl2 false now in
+                   (sq3, oq3, fl3, db2, loss)
+            end).
+  assert (Hg : let '(sq3, oq3, fl3, db3, loss) := g in
+               0 <= fl3 <= fsum sq3 /\ fl3 <= fl1 /\ Forall bok sq3 /\ Forall rxok sq3 /\ Forall bok oq3 /\ Forall fresh oq3 /\
+               (Forall abrx sq1 -> Forall abrx sq3) /\ 0 <= db3 /\ (sq1 = [] -> sq3 = [])).
+  { unfold g. destruct gaps as [|g0 gaps'].
+    - repeat split; auto; lia.
+    - set (last_pos := match sq1 with [] => 0 | _ => tsn_off cum (last_tsn sq1 0) end).
+      set (hs := highest_seen cum last_pos (g0 :: gaps') cum).
+      assert (A1' : 0 <= fl1 <= 0 + fsum sq1) by lia.
+      pose proof (gap_ack_ok sq1 cum last_pos hs (g0 :: gaps') fl1 db1 cum 0 A3 A4 ltac:(lia) A1') as H2.
+      destruct (gap_ack sq1 cum last_pos hs (g0 :: gaps') fl1 db1 cum) as [[[sq2 fl2] db2] htna] eqn:Eg.
+      destruct H2 as (B1 & B2 & B3 & B4 & B5 & B6 & B7).
+      assert (B1' : 0 <= fl2 <= fsum [] + fsum sq2) by (rewrite fsum_nil; lia).
+      pose proof (strike_ok (length sq2) [] sq2 (outq s) cum last_pos htna (g0 :: gaps') fl2 false now
+                            (Forall_nil _) (Forall_nil _) B3 B4 Hbo Hfo B1') as H3.
+      destruct (strike (length sq2) [] sq2 (outq s) cum last_pos htna (g0 :: gaps') fl2 false now) as [[[sq3 oq3] fl3] loss] eqn:Es.
+      destruct H3 as (C1 & C2 & C3 & C4 & C5 & C6 & C7).
+      assert (X1 : Forall abrx sq1 -> Forall abrx sq3) by (intros A; apply C6; [constructor|now apply B5]).
+      assert (X2 : sq1 = [] -> sq3 = []).
+      { intros E. subst sq1. cbn [length] in B6. destruct sq2; [|cbn in B6; lia].
+        cbn [length strike rev app] in Es. now injection Es as <- _ _ _. }
+      repeat split; auto; lia. }
+  destruct g as [[[[sq3 oq3] fl3] db3] loss].
+  destruct Hg as (G1 & G2 & G3 & G4 & G5 & G6 & G7 & G8 & G9).
+  set (cc := match fr_exit s with
+             | None =>
+                 let '(cw1, pb1) :=
+                   if negb (done =? 0) && (cwnd s <=? flight s) then
+                     if cwnd s <=? ssthresh s then (cwnd s + Z.min db3 MTU, pba s)
+                     else let pb := pba s + db3 in if cwnd s <=? pb then (cwnd s + MTU, pb - cwnd s) else (cwnd s, pb)
+                   else (cwnd s, pba s) in
+                 if loss then let ss := Z.max (cw1 / 2) (4 * MTU) in (ss, ss, 0, Some (last_tsn sq3 0), true)
+                 else (cw1, ssthresh s, pb1, None, fr_transmit s)
+             | Some e => (cwnd s, ssthresh s, pba s, if uint32_gte cum e then None else Some e, fr_transmit s)
+             end).
+  assert (Hcc : MTU <= fst (fst (fst (fst cc)))).
+  { unfold cc. rewrite MTU_val in *. destruct (fr_exit s); [cbn; lia|].
+    destruct (negb (done =? 0) && (cwnd s <=? flight s)).
+    - destruct (cwnd s <=? ssthresh s).
+      + destruct loss; cbn [fst]; lia.
+      + destruct (cwnd s <=? pba s + db3); destruct loss; cbn [fst]; lia.
+    - destruct loss; cbn [fst]; lia. }
+  destruct cc as [[[[cw ss] pb] fre] frt]. cbn [fst] in Hcc.
+  set (t3' := match sq3 with [] => false | _ => if done =? 0 then t3 s else true end).
+  set (s0 := mkTx cw ss fl3 fre frt (fwd_chunk s) (fwd_streams s) cum (adv_ack s) oq3 sq3 pb t3' (pending_tx s)).
+  assert (Hp0 : tpre s0) by (constructor; cbn [outq sentq cwnd flight s0]; auto).
+  pose proof (update_adv_ok s0 Hp0) as (U1 & U2 & U3 & U4 & U5 & U6 & U7 & U8 & U9). cbn zeta in *.
+  exists (update_adv s0). split; [reflexivity|]. split; [exact U1|]. split; [rewrite U6; reflexivity|].
+  intros Hne. rewrite U5, U3. cbn [t3 flight s0].
+  assert (Hsq3 : sq3 <> []) by (intros E; apply Hne; apply U9; exact E).
+  assert (Hsq1 : sq1 <> []) by (intros E; apply Hsq3; now apply G9).
+  assert (Hs : sentq s <> []) by (intros E; rewrite E in A7; destruct sq1; [congruence|cbn in A7; lia]).
+  destruct (Ht3 Hs) as [X|(_ & X2 & X3 & X4)].
+  - left. unfold t3'. destruct sq3; [congruence|]. rewrite X. now destruct (done =? 0).
+  - right. split; [lia|]. split; [|exact U7]. apply U8. cbn [sentq s0]. apply G7. now apply A5.
+Qed.
+
+Theorem step_inv s i :
+  inv s -> match i with ISendMsg cs => Forall bok cs /\ Forall fresh cs | _ => True end -> inv (fst (step s i)).
+Proof.
+  intros Hinv Hwf. pose proof (inv_tpre s Hinv) as Hp.
+  assert (Hstate : sentq s <> [] -> t3 s = true \/ (flight s = 0 /\ Forall abrx (sentq s) /\ head_live (sentq s))).
+  { intros Hne. destruct (i_t3 s Hinv Hne) as [X|(_ & B & C & D)]; auto. }
+  destruct i as [cs|cum gaps now|now|]; cbn [step].
+  - (* _send *)
+    destruct Hwf as [Hbc Hfc]. unfold send.
+    set (s0 := with_q s (flight s) (outq s ++ cs) (sentq s)).
+    assert (Hp0 : tpre s0).
+    { destruct Hp. constructor; cbn [outq sentq cwnd flight s0 with_q]; auto; apply Forall_app; split; assumption. }
+    pose proof (inv_of_transmit s0 (pending_tx s) Hp0 Hstate) as H. cbn zeta in H.
+    pose proof (transmit_ok s0 Hp0) as (_ & _ & Epend & _). cbn zeta in Epend. cbn [pending_tx s0 with_q] in Epend.
+    destruct (fst (transmit s0)) as [a b c d e f g h i j k l m n]. cbn [pending_tx] in *. subst n. exact H.
+  - (* _receive_sack_chunk *)
+    destruct (uint32_gt (last_sacked s) cum) eqn:Egt.
+    { unfold receive_sack. rewrite Egt. exact Hinv. }
+    destruct (sack_state s cum gaps now Hinv Egt) as (s1 & E1 & P1 & Q1 & R1). rewrite E1.
+    pose proof (inv_of_transmit s1 (pending_tx s) P1 R1) as H. cbn zeta in H.
+    pose proof (transmit_ok s1 P1) as (_ & _ & Epend & _). cbn zeta in Epend. rewrite Q1 in Epend.
+    destruct (fst (transmit s1)) as [a b c d e f g h i j k l m n]. cbn [pending_tx] in *. subst n. exact H.
+  - (* T3 *)
+    destruct (t3 s); [|exact Hinv]. unfold t3_expired.
+    destruct Hinv as [Hbo Hfo Hbs Hrs Hcw Hfl Ht3 Hoq].
+    pose proof (t3_mark_ok (length (sentq s)) [] (sentq s) (outq s) (flight s) now (Forall_nil _) (Forall_nil _)
+                           Hbs Hrs Hbo Hfo ltac:(lia) (Forall_nil _) ltac:(lia)) as Hm.
+    rewrite skipn_all in Hm. specialize (Hm (Forall_nil _)).
+    destruct (t3_mark (length (sentq s)) [] (sentq s) (outq s) (flight s) now) as [[sq oq] fl].
+    destruct Hm as (M1 & M2 & M3 & M4 & M5).
+    set (s0 := mkTx (cwnd s) (ssthresh s) (fsum sq) (fr_exit s) (fr_transmit s) (fwd_chunk s) (fwd_streams s)
+                    (last_sacked s) (adv_ack s) oq sq (pba s) false (pending_tx s)).
+    (* update_adv does not look at the flight size: run the lemma on a copy whose flight is harmless *)
+    pose proof (fsum_nonneg _ M1) as Hn.
+    assert (Hp0 : tpre s0) by (constructor; cbn [outq sentq cwnd flight s0]; auto; lia).
+    pose proof (update_adv_ok s0 Hp0) as (U1 & U2 & U3 & U4 & U5 & U6 & U7 & U8 & U9). cbn zeta in *.
+    assert (Esame : forall f, sentq (update_adv (mkTx (cwnd s) (ssthresh s) f (fr_exit s) (fr_transmit s) (fwd_chunk s)
+                       (fwd_streams s) (last_sacked s) (adv_ack s) oq sq (pba s) false (pending_tx s))) = sentq (update_adv s0)
+                     /\ outq (update_adv (mkTx (cwnd s) (ssthresh s) f (fr_exit s) (fr_transmit s) (fwd_chunk s)
+                       (fwd_streams s) (last_sacked s) (adv_ack s) oq sq (pba s) false (pending_tx s))) = outq (update_adv s0)).
+    { intros f. unfold update_adv, s0. cbn [last_sacked adv_ack fwd_streams sentq outq].
+      destruct (if uint32_gte (last_sacked s) (adv_ack s) then _ else _) as [adv0 strs0].
+      destruct (pop_abandoned sq adv0 strs0) as [[q a] st]. cbn. split; reflexivity. }
+    destruct (Esame fl) as [Es Eo]. destruct U1 as [V1 V2 V3 V4 V5 V6].
+    cbn [fst]. constructor; cbn [outq sentq cwnd flight t3 pending_tx]; rewrite ?Es, ?Eo; auto.
+    + rewrite MTU_val. lia.
+    + pose proof (fsum_nonneg _ V3). lia.
+    + intros _. right. repeat split; auto; try (apply U8; exact M5).
+  - (* deferred _transmit *)
+    rewrite (surjective_pairing (transmit s)). cbn [fst].
+    pose proof (inv_of_transmit s false Hp Hstate) as H. exact H.
+Qed.
+
+Definition wf_input (i : input) : Prop :=
+  match i with ISendMsg cs => Forall bok cs /\ Forall fresh cs | _ => True end.
+
+Lemma run_cons s i is :
+  run s (i :: is) = (fst (run (fst (step s i)) is), snd (step s i) :: snd (run (fst (step s i)) is)).
+Proof.
+  cbn [run]. destruct (step s i) as [s1 e]. cbn [fst snd]. destruct (run s1 is) as [s2 es]. reflexivity.
+Qed.
+
+Theorem run_inv : forall is s, inv s -> Forall wf_input is -> inv (fst (run s is)).
+Proof.
+  induction is as [|i is IH]; intros s Hinv Hwf; [exact Hinv|].
+  rewrite run_cons. cbn [fst]. inversion Hwf; subst. apply IH; [now apply step_inv|assumption].
+Qed.
+
+Lemma inv_init t rw : inv (init t rw).
+Proof.
+  constructor; cbn; try constructor; try lia; try congruence. rewrite MTU_val. lia.
+Qed.
